@@ -944,6 +944,53 @@ theorem replayChain_pool (e : Env) (l : List Nat) (s : St) : (replayChain e l s)
     rw [replayChain_cons, ih]
     exact (replayTxs_frame e (e.block bi).prop (e.block bi).txs s).2.2
 
+/-- the block part of a successful walk (`walkCore`: roll-back of the pool, undo loop, apply loop) lands on the replay of
+the destination's branch, with an empty pool — `walk_refines` before the re-admission -/
+theorem walkCore_refines (e : Env) (s : St) (lh : Int) (dest : Nat) (prune : Bool) (r : St)
+    (hok : (XV.Crash.walkCore e s lh dest prune).2 = true) (hinv : KVInv e r)
+    (hchain : ChainValid e (undoTodo e s.pointer dest).1.reverse r)
+    (hpool : PoolValid e s.pool (replayChain e (undoTodo e s.pointer dest).1.reverse r))
+    (hs : TRefines s (applyPool e s.pool (replayChain e (undoTodo e s.pointer dest).1.reverse r))) :
+    TRefines (XV.Crash.walkCore e s lh dest prune).1 (replayChain e (undoTodo e s.pointer dest).2 r) ∧
+    (XV.Crash.walkCore e s lh dest prune).1.pool = [] := by
+  have hR := replayChain_KVInv e _ r hchain hinv
+  have hroll := rollback_applyPool e s.pool _ hpool hR s hs
+  unfold XV.Crash.walkCore XV.Crash.rolledBack at hok ⊢
+  simp only at hok ⊢
+  have h0 : TRefines ({ (s.pool.reverse.foldl (fun st i => undoTx e st (e.tx i)) s) with pool := [] } : St)
+      (replayChain e (undoTodo e s.pointer dest).1.reverse r) :=
+    hroll.of_tables ⟨rfl, rfl, rfl, rfl⟩ ⟨rfl, rfl, rfl, rfl⟩
+  have hp0 : ({ (s.pool.reverse.foldl (fun st i => undoTx e st (e.tx i)) s) with pool := [] } : St).pool = [] := rfl
+  generalize hs0 : ({ (s.pool.reverse.foldl (fun st i => undoTx e st (e.tx i)) s) with pool := [] } : St) = s0
+    at h0 hp0 hok ⊢
+  have hu := undoAll_replayChain e prune (undoTodo e s.pointer dest).1 r s0 hchain hinv h0
+  have hup := undoAll_pool e prune (undoTodo e s.pointer dest).1 s0
+  generalize hua : walk.undoAll e prune (undoTodo e s.pointer dest).1 s0 = ua at hu hup hok ⊢
+  obtain ⟨s1, ok1⟩ := ua
+  simp only at hu hup
+  by_cases hok1 : ok1 = true
+  · simp only [hok1, Bool.not_true, Bool.false_eq_true, ↓reduceIte] at hok ⊢
+    have ht := todoAll_eq e lh (undoTodo e s.pointer dest).2 s1
+    generalize hta : walk.todoAll e lh (undoTodo e s.pointer dest).2 s1 = ta at ht hok ⊢
+    obtain ⟨s2, ok2⟩ := ta
+    simp only at ht hok ⊢
+    refine ⟨?_, ?_⟩
+    · rw [ht hok]
+      exact replayChain_trefines e _ s1 r (hu hok1)
+    · rw [ht hok, replayChain_pool, hup, hp0]
+  · simp [hok1] at hok
+
+/-- after a successful walk the block part stands on the destination -/
+theorem walkCore_reaches (e : Env) (s : St) (lh : Int) (dest : Nat) (prune : Bool) (hpl : ParentLower e)
+    (hid : (e.block dest).id = dest) (hok : (XV.Crash.walkCore e s lh dest prune).2 = true) :
+    (XV.Crash.walkCore e s lh dest prune).1.pointer = dest := by
+  have hw : (walk e s lh dest prune).2 = true := by rw [XV.Crash.walk_ok_iff_core]; exact hok
+  have := walk_reaches_any e s lh dest prune hpl hid hw
+  rw [XV.Crash.walk_eq_core, if_pos hok] at this
+  simp only at this
+  rw [foldl_doTx_pointer] at this
+  exact this
+
 /-- **a successful walk lands on the replay of the destination's branch.** Let `(undo, todo) = undoTodo` (so, by
 `undoTodo_spec`, `undo.reverse` / `todo` are the branches of the tip / of the destination above their lowest common
 ancestor, oldest first). If the state refines "`r`, then the blocks of `undo.reverse` replayed, then the pool
@@ -962,35 +1009,10 @@ theorem walk_refines (e : Env) (s : St) (lh : Int) (dest : Nat) (prune : Bool) (
     (hs : TRefines s (applyPool e s.pool (replayChain e (undoTodo e s.pointer dest).1.reverse r))) :
     ∃ s2, TRefines s2 (replayChain e (undoTodo e s.pointer dest).2 r) ∧ s2.pool = [] ∧
       (walk e s lh dest prune).1 = (repostList e s).foldl (fun st i => (doTx e st lh i).1) s2 := by
-  have hR := replayChain_KVInv e _ r hchain hinv
-  have hroll := rollback_applyPool e s.pool _ hpool hR s hs
-  unfold walk at hok ⊢
-  simp only at hok ⊢
-  have h0 : TRefines ({ (s.pool.reverse.foldl (fun st i => undoTx e st (e.tx i)) s) with pool := [] } : St)
-      (replayChain e (undoTodo e s.pointer dest).1.reverse r) :=
-    hroll.of_tables ⟨rfl, rfl, rfl, rfl⟩ ⟨rfl, rfl, rfl, rfl⟩
-  have hp0 : ({ (s.pool.reverse.foldl (fun st i => undoTx e st (e.tx i)) s) with pool := [] } : St).pool = [] := rfl
-  generalize hs0 : ({ (s.pool.reverse.foldl (fun st i => undoTx e st (e.tx i)) s) with pool := [] } : St) = s0
-    at h0 hp0 hok ⊢
-  have hu := undoAll_replayChain e prune (undoTodo e s.pointer dest).1 r s0 hchain hinv h0
-  have hup := undoAll_pool e prune (undoTodo e s.pointer dest).1 s0
-  generalize hua : walk.undoAll e prune (undoTodo e s.pointer dest).1 s0 = ua at hu hup hok ⊢
-  obtain ⟨s1, ok1⟩ := ua
-  simp only at hu hup
-  by_cases hok1 : ok1 = true
-  · simp only [hok1, Bool.not_true, Bool.false_eq_true, ↓reduceIte] at hok ⊢
-    have ht := todoAll_eq e lh (undoTodo e s.pointer dest).2 s1
-    generalize hta : walk.todoAll e lh (undoTodo e s.pointer dest).2 s1 = ta at ht hok ⊢
-    obtain ⟨s2, ok2⟩ := ta
-    simp only at ht
-    by_cases hok2 : ok2 = true
-    · simp only [hok2, Bool.not_true, Bool.false_eq_true, ↓reduceIte] at hok ⊢
-      refine ⟨s2, ?_, ?_, rfl⟩
-      · rw [ht hok2]
-        exact replayChain_trefines e _ s1 r (hu hok1)
-      · rw [ht hok2, replayChain_pool, hup, hp0]
-    · simp [hok2] at hok
-  · simp [hok1] at hok
+  have hokc : (XV.Crash.walkCore e s lh dest prune).2 = true := by rw [← XV.Crash.walk_ok_iff_core]; exact hok
+  obtain ⟨t1, t2⟩ := walkCore_refines e s lh dest prune r hokc hinv hchain hpool hs
+  refine ⟨_, t1, t2, ?_⟩
+  rw [XV.Crash.walk_eq_core, if_pos hokc]
 
 /-- with an empty pool the walk's result itself refines the replay of the destination branch -/
 theorem walk_refines_nopool (e : Env) (s : St) (lh : Int) (dest : Nat) (prune : Bool) (r : St)
@@ -3153,12 +3175,14 @@ structure Inv (e : Env) (g : St) (s : St) : Prop where
   static : ∀ i ∈ s.pool, StaticFrozen e i ∧ IdFresh g i
 
 /-- the operations of a history: a transaction is submitted, a block of a peer is played, the node's own block is
-played, the node walks to a block; `lh` is the ledger height the operation runs at (frozen outputs) -/
+played, the node walks to a block; `lh` is the ledger height the operation runs at (frozen outputs); `skip` is the skip
+list the ledger supplies for THIS walk (repaired `recoverUnconfirmedTx`: the pending transactions it records as confirmed
+on the chain walked to; `walkEnv` of the driver) -/
 inductive HOp where
   | submit (lh : Int) (i : Nat)
   | play (lh : Int) (bi : Nat)
   | playMiner (lh : Int) (bi : Nat)
-  | walk (lh : Int) (dest : Nat) (prune : Bool := false)
+  | walk (lh : Int) (dest : Nat) (prune : Bool := false) (skip : List Nat := [])
 deriving Repr, DecidableEq
 
 /-- one operation of the model; a refused submission / block leaves the state as it is (C05) -/
@@ -3166,7 +3190,7 @@ def hstep (e : Env) (s : St) : HOp → St
   | .submit lh i => (doTx e s lh i).1
   | .play lh bi => (play e s lh (e.block bi)).1
   | .playMiner lh bi => (playForMiner e s lh (e.block bi)).1
-  | .walk lh dest prune => (walk e s lh dest prune).1
+  | .walk lh dest prune skip => (walk (e.withSkip skip) s lh dest prune).1
 
 def hrun (e : Env) (s : St) (ops : List HOp) : St := ops.foldl (hstep e) s
 
@@ -3175,8 +3199,10 @@ and the invariant). A submitted transaction that is ACCEPTED is well-formed, cit
 id; if it has no token input it must not be confirmed on the node's chain already (a transaction with a token input that
 is confirmed cannot be accepted: its input is spent — `spent_on_chain`). Nothing is asked of a peer's block. The node's
 own block, if accepted: coinbase transactions new and without key writes, the others pending, a prefix of the pool. A
-walk goes to a registered block, and a pending transaction WITHOUT token input that is confirmed on the destination's
-chain is not among the re-admitted ones (again: with a token input it cannot be); a walk that
+walk goes to a registered block, and its skip list names every pending transaction that is confirmed on the destination's
+chain — what the ledger supplies (`isConfirmedOnCurrentChain`); this replaces the former DYNAMIC condition "a pending
+transaction without token input that is confirmed on the destination's chain is not among the re-admitted ones", which
+spoke of the result of the walk and was false of the code as found (`walk_as_found_readmits_confirmed`). A walk that
 FAILS (an undo refused at the irreversible height, a block refused at this ledger height) is covered too: it leaves the
 node at the block it reached, with an empty pool (`inv_walk_fail`). -/
 def OpOK (e : Env) (g : St) (s : St) : HOp → Prop
@@ -3187,8 +3213,7 @@ def OpOK (e : Env) (g : St) (s : St) : HOp → Prop
       (∀ i ∈ (e.block bi).txs, (e.tx i).coinbase = false → i ∈ s.pool) ∧
       (∀ i ∈ (e.block bi).txs, (e.tx i).coinbase = true → i ∉ s.pool ∧ (e.tx i).kout = []) ∧
       (∀ a ∈ s.pool, a ∉ (e.block bi).txs → ∀ i ∈ (e.block bi).txs, i ∈ s.pool → [i, a].Sublist s.pool)
-  | .walk lh dest prune => dest ∈ e.blocks.map (·.1) ∧
-      ∀ i ∈ repostList e s, (e.tx i).ins ≠ [] ∨ i ∉ chainTxs e dest ∨ i ∉ (walk e s lh dest prune).1.pool
+  | .walk _ dest _ skip => dest ∈ e.blocks.map (·.1) ∧ ∀ i ∈ s.pool, i ∈ chainTxs e dest → i ∈ skip
 
 /-- `OpOK` for every operation of the history, each in the state it is applied to -/
 def HistOK (e : Env) (g : St) : St → List HOp → Prop
@@ -3514,41 +3539,55 @@ private theorem readmit_inv2 (e : Env) (g : St) (lh : Int) (dest : Nat) (he : En
         rw [h6]
         exact ⟨hgood hok, (hst i List.mem_cons_self).2.2⟩
 
-private theorem inv_walk (e : Env) (g s : St) (lh : Int) (dest : Nat) (prune : Bool) (he : EnvOK e g) (h : Inv e g s)
-    (hop : (walk e s lh dest prune).2 = true ∧ dest ∈ e.blocks.map (·.1) ∧
-      ∀ i ∈ repostList e s, (e.tx i).ins ≠ [] ∨ i ∉ chainTxs e dest ∨ i ∉ (walk e s lh dest prune).1.pool) :
-    Inv e g (walk e s lh dest prune).1 := by
-  obtain ⟨hok, hdest, hcand⟩ := hop
+/-- the re-admission of ANY list `L` taken from the old pool, on the block part of a successful walk, re-establishes the
+invariant at the destination -/
+private theorem inv_walkL (e : Env) (g s : St) (lh : Int) (dest : Nat) (prune : Bool) (he : EnvOK e g) (h : Inv e g s)
+    (L : List Nat) (hL : ∀ i ∈ L, i ∈ s.pool)
+    (hok : (XV.Crash.walkCore e s lh dest prune).2 = true) (hdest : dest ∈ e.blocks.map (·.1))
+    (hcand : ∀ i ∈ L, (e.tx i).ins ≠ [] ∨ i ∉ chainTxs e dest ∨
+      i ∉ (L.foldl (fun st i => (doTx e st lh i).1) (XV.Crash.walkCore e s lh dest prune).1).pool) :
+    Inv e g (L.foldl (fun st i => (doTx e st lh i).1) (XV.Crash.walkCore e s lh dest prune).1) := by
   have hchain := he.chains _ h.known
-  have hpt := walk_reaches_any e s lh dest prune he.lower (he.blockId dest hdest) hok
+  have hpt0 := walkCore_reaches e s lh dest prune he.lower (he.blockId dest hdest) hok
   have hpool := h.pool
   have hs := h.refines
   obtain ⟨pre, h1, h2, h3⟩ := canon_split e g s.pointer dest he.lower
   rw [h1] at hchain
   obtain ⟨c1, c2⟩ := chainValid_append e pre _ g hchain
   rw [h2] at hpool hs
-  obtain ⟨s2, t1, t2, t3⟩ := walk_refines e s lh dest prune (replayChain e pre g) hok
+  obtain ⟨t1, t2⟩ := walkCore_refines e s lh dest prune (replayChain e pre g) hok
     (replayChain_KVInv e pre g c1 he.kv) c2 hpool hs
   rw [← h3] at t1
+  generalize XV.Crash.walkCore e s lh dest prune = core at hpt0 t1 t2 hcand ⊢
+  obtain ⟨s2, okc⟩ := core
+  simp only at hpt0 t1 t2 hcand ⊢
+  have hpt : (L.foldl (fun st i => (doTx e st lh i).1) s2).pointer = dest := by
+    rw [foldl_doTx_pointer]; exact hpt0
   have hwfP := ((poolValid_iff e _ _).mp h.pool).wf
-  have hsub := foldl_doTx_pool_sub e lh (repostList e s) s2
+  have hsub := foldl_doTx_pool_sub e lh L s2
   rw [t2] at hsub
-  have hmem : ∀ j ∈ (walk e s lh dest prune).1.pool, j ∈ s.pool := by
+  have hmem : ∀ j ∈ (L.foldl (fun st i => (doTx e st lh i).1) s2).pool, j ∈ s.pool := by
     intro j hj
-    rw [t3] at hj
     rcases hsub j hj with h5 | h5
     · cases h5
-    · exact repostList_subset e s j h5
-  obtain ⟨r1, r2, r3, r4⟩ := readmit_inv2 e g lh dest he hdest (repostList e s) s2
+    · exact hL j h5
+  obtain ⟨r1, r2, r3, r4⟩ := readmit_inv2 e g lh dest he hdest L s2
     (by rw [t2]; exact t1) (by rw [t2]; trivial) (by rw [t2]; exact List.nodup_nil)
     (fun j hj => by rw [t2] at hj; cases hj)
-    (fun i hi => ⟨(txWF_iff e i).mpr (hwfP i (repostList_subset e s i hi)),
-      (h.static i (repostList_subset e s i hi)).1, (h.static i (repostList_subset e s i hi)).2⟩)
-    (fun i hi => by rw [← t3]; exact hcand i hi)
-  rw [← t3] at r1 r2 r3 r4
+    (fun i hi => ⟨(txWF_iff e i).mpr (hwfP i (hL i hi)), (h.static i (hL i hi)).1, (h.static i (hL i hi)).2⟩)
+    hcand
   refine ⟨by rw [hpt]; exact hdest, by rw [hpt]; exact r1, by rw [hpt]; exact r2, r3, ?_, ?_⟩
   · rw [hpt]; exact fun j hj => (r4 j hj).1
   · exact fun j hj => h.static j (hmem j hj)
+
+private theorem inv_walk (e : Env) (g s : St) (lh : Int) (dest : Nat) (prune : Bool) (he : EnvOK e g) (h : Inv e g s)
+    (hop : (walk e s lh dest prune).2 = true ∧ dest ∈ e.blocks.map (·.1) ∧
+      ∀ i ∈ repostList e s, (e.tx i).ins ≠ [] ∨ i ∉ chainTxs e dest ∨ i ∉ (walk e s lh dest prune).1.pool) :
+    Inv e g (walk e s lh dest prune).1 := by
+  obtain ⟨hok, hdest, hcand⟩ := hop
+  have hokc : (XV.Crash.walkCore e s lh dest prune).2 = true := by rw [← XV.Crash.walk_ok_iff_core]; exact hok
+  rw [XV.Crash.walk_eq_core, if_pos hokc] at hcand ⊢
+  exact inv_walkL e g s lh dest prune he h (repostList e s) (repostList_subset e s) hokc hdest hcand
 
 -- ------------------------------------------------------------------ a walk that fails
 
@@ -3661,8 +3700,8 @@ private theorem todoAll_at (e : Env) (g : St) (lh : Int) (he : EnvOK e g) :
 undo was refused at the irreversible height, a block of the destination branch if a block was refused), with an empty
 pool and the tables of the canonical state of that block -/
 private theorem inv_walk_fail (e : Env) (g s : St) (lh : Int) (dest : Nat) (prune : Bool) (he : EnvOK e g)
-    (h : Inv e g s) (hdest : dest ∈ e.blocks.map (·.1)) (hfail : (walk e s lh dest prune).2 = false) :
-    Inv e g (walk e s lh dest prune).1 := by
+    (h : Inv e g s) (hdest : dest ∈ e.blocks.map (·.1)) (hfail : (XV.Crash.walkCore e s lh dest prune).2 = false) :
+    Inv e g (XV.Crash.walkCore e s lh dest prune).1 := by
   have hchain := he.chains _ h.known
   have hR := replayChain_KVInv e _ g hchain he.kv
   have hroll := rollback_applyPool e s.pool _ h.pool hR s h.refines
@@ -3683,7 +3722,7 @@ private theorem inv_walk_fail (e : Env) (g s : St) (lh : Int) (dest : Nat) (prun
         exact hdisj x h1 (List.mem_of_getLast? hl)
     · exact ⟨lca, r1, r2, h1, h2⟩
   obtain ⟨lca, r1, r2, hca, hda⟩ := hcommon
-  unfold walk at hfail ⊢
+  unfold XV.Crash.walkCore XV.Crash.rolledBack at hfail ⊢
   simp only at hfail ⊢
   have h0 : At e g ({ (s.pool.reverse.foldl (fun st i => undoTx e st (e.tx i)) s) with pool := [] } : St) s.pointer :=
     ⟨foldl_undoTx_pointer e s.pool.reverse s, h.known,
@@ -3709,13 +3748,7 @@ private theorem inv_walk_fail (e : Env) (g s : St) (lh : Int) (dest : Nat) (prun
       rw [← hda]
       exact ancestors_linked e _ dest
     obtain ⟨p2, ht⟩ := todoAll_at e g lh he (undoTodo e s.pointer dest).2 s1 lca hu1 hfl
-    generalize hta : walk.todoAll e lh (undoTodo e s.pointer dest).2 s1 = ta at ht hfail ⊢
-    obtain ⟨s2, ok2⟩ := ta
-    simp only at ht
-    by_cases hok2 : ok2 = true
-    · simp [hok2] at hfail
-    · simp only [hok2, Bool.not_false, ↓reduceIte]
-      exact ht.inv
+    exact ht.inv
   · simp only [hok1, Bool.not_false, ↓reduceIte]
     exact hu1.inv
 
@@ -3726,11 +3759,20 @@ theorem step_invariant (e : Env) (g s : St) (op : HOp) (he : EnvOK e g) (h : Inv
   | submit lh i => exact inv_submit e g s lh i he h hop
   | play lh bi => exact inv_play e g s lh bi he h
   | playMiner lh bi => exact inv_playMiner e g s lh bi he h hop
-  | walk lh dest prune =>
-    obtain ⟨hdest, hni⟩ := hop
-    by_cases hok : (walk e s lh dest prune).2 = true
-    · exact inv_walk e g s lh dest prune he h ⟨hok, hdest, hni⟩
-    · exact inv_walk_fail e g s lh dest prune he h hdest (by simpa using hok)
+  | walk lh dest prune skip =>
+    obtain ⟨hdest, hskip⟩ := hop
+    show Inv e g (walk (e.withSkip skip) s lh dest prune).1
+    rw [XV.Crash.walk_withSkip]
+    by_cases hok : (XV.Crash.walkCore e s lh dest prune).2 = true
+    · rw [if_pos hok]
+      apply inv_walkL e g s lh dest prune he h _ (fun i hi => (List.mem_filter.mp hi).1) hok hdest
+      intro i hi
+      obtain ⟨hp, hn⟩ := List.mem_filter.mp hi
+      refine Or.inr (Or.inl (fun hc => ?_))
+      have : i ∈ skip := hskip i hp hc
+      simp [this] at hn
+    · rw [if_neg hok]
+      exact inv_walk_fail e g s lh dest prune he h hdest (by simpa using hok)
 
 /-- **the closing induction: after ANY history the node is on "canonical state of its tip + pool".** Environment as in
 `EnvOK`; start state with the invariant (`genesis_inv`: the canonical state of a registered block with an empty pool —
@@ -3806,8 +3848,8 @@ instance decHistOK (e : Env) (g : St) : (s : St) → (ops : List HOp) → Decida
 -- non-vacuity of `chain_refines`: genesis rows (0,0) (0,1) (0,2); blocks 2 and 3 are both children of block 1, block 4
 -- a child of block 2. The history: five submissions (one more is refused: already pending), the peer's block 2 with a
 -- non-empty pool (two evictions, one pending member confirmed, two survivors), a refused block (3: not a child of the
--- tip), a submission on top of the survivors, a walk across the fork to block 3 (which confirms 21 and 22: 22 is not
--- re-admitted), a walk back to block 2, a refused submission (24: its input is spent), the node's own block 4 packing
+-- tip), a submission on top of the survivors, a walk across the fork to block 3 (which confirms 21 and 22: the pending 22
+-- is in the skip list the ledger supplies for this walk and is not re-submitted), a walk back to block 2, a refused submission (24: its input is spent), the node's own block 4 packing
 -- the whole pool, a walk to block 3 that FAILS (at ledger height -1 the inputs of block 3 count as frozen: the node is
 -- left at block 1, the common ancestor) and a walk back to block 4.
 private def hsEnv : Env := {
@@ -3819,7 +3861,7 @@ private def hsEnv : Env := {
 private def hsS0 : St := { canon hsEnv prG 1 with pool := [], pointer := 1 }
 private def hsOps : List HOp := [
   .submit 0 21, .submit 0 22, .submit 0 21, .submit 0 23, .submit 0 24, .submit 0 26,
-  .play 0 2, .play 0 3, .submit 0 27, .walk 0 3, .walk 0 2, .submit 0 24, .playMiner 0 4,
+  .play 0 2, .play 0 3, .submit 0 27, .walk 0 3 false [22], .walk 0 2, .submit 0 24, .playMiner 0 4,
   .walk (-1) 3, .walk 0 4]
 
 private theorem hsEnvOK : EnvOK hsEnv prG := by
@@ -3853,6 +3895,40 @@ example :
     (hrun hsEnv hsS0 (hsOps.take 10)).pointer = 3 ∧
     (walk hsEnv (hrun hsEnv hsS0 (hsOps.take 13)) (-1) 3 false).2 = false ∧
     (hrun hsEnv hsS0 (hsOps.take 14)).pointer = 1 := by decide
+
+-- `chain_refines` on the scenario of defect (1) — a pending transaction WITHOUT token input that the branch walked to
+-- confirms. Block 1 = [10 (genesis coinbase)]; on it block 2 = [20 (award)] and block 3 = [30 (award), 50]; transaction 50
+-- only READS the never-written key "k". History: block 2 played, 50 submitted (pool [50]), walk to block 3 with the skip
+-- list [50] the ledger supplies: 50 is not re-submitted, the pool ends empty, the invariant holds. With the empty list (the
+-- code as found) the same walk re-admits 50: it is pending AND confirmed, `OpOK` fails and so does the invariant.
+private def rdEnv : Env := {
+  txs := [
+    (10, ⟨10, true, [], [⟨"g", 1, 0⟩], [], []⟩),
+    (20, ⟨20, true, [], [⟨"m2", 10, 0⟩], [], []⟩),
+    (30, ⟨30, true, [], [⟨"m3", 10, 0⟩], [], []⟩),
+    (50, ⟨50, false, [], [], [⟨"k", none⟩], []⟩)],
+  blocks := [(1, ⟨1, none, 1, [10], "g"⟩), (2, ⟨2, some 1, 2, [20], "m2"⟩), (3, ⟨3, some 1, 2, [30, 50], "m3"⟩)] }
+private def rdS0 : St := { canon rdEnv {} 1 with pool := [], pointer := 1 }
+private def rdOps (skip : List Nat) : List HOp := [.play 0 2, .submit 0 50, .walk 0 3 false skip]
+
+private theorem rdEnvOK : EnvOK rdEnv {} := by
+  refine ⟨parentLower_of_blocks _ (by decide), by decide, by decide, by decide, ?_, by decide, by decide,
+    KVInv_empty _ _ rfl rfl, frozenInv_of_rows _ _ (by decide)⟩
+  intro bi hbi
+  apply chainValid_of_check _ 0
+  revert bi hbi
+  decide
+
+example : HistOK rdEnv {} rdS0 (rdOps [50]) ∧ (hrun rdEnv rdS0 ((rdOps [50]).take 2)).pool = [50] ∧
+    (rdEnv.tx 50).ins = [] ∧ 50 ∈ chainTxs rdEnv 3 ∧
+    (hrun rdEnv rdS0 (rdOps [50])).pointer = 3 ∧ (hrun rdEnv rdS0 (rdOps [50])).pool = [] := by decide
+example : Inv rdEnv {} (hrun rdEnv rdS0 (rdOps [50])) :=
+  chain_refines rdEnv {} rdS0 (rdOps [50]) rdEnvOK (genesis_inv rdEnv {} 1 (by decide)) (by decide)
+-- nothing skipped: the hypothesis on the walk fails, and the conclusion with it
+example : ¬ HistOK rdEnv {} rdS0 (rdOps []) ∧ (hrun rdEnv rdS0 (rdOps [])).pointer = 3 ∧
+    (hrun rdEnv rdS0 (rdOps [])).pool = [50] := by decide
+example : ¬ Inv rdEnv {} (hrun rdEnv rdS0 (rdOps [])) :=
+  fun h => h.disjoint 50 (by decide) (by decide)
 
 -- ================================================================== is an accepted block replayable? — after the repair: yes
 
